@@ -164,9 +164,11 @@ def check(ctx, rep):
                             if name == "append":
                                 rep.ob("R-FIFO", "%s: enqueue only on submit" % fi.qualname, fi.name.startswith("submit"), "append to the queue outside submit", where_of(fi, e.node))
                     c = e.d["callee"]
-                    if c is not None and c.owner is ai and e.fn is fi:
-                        rt = it2.type_of(r, p)
-                        (inc_sites if c.name == "incr" else dec_sites if c.name == "decr" else {}).setdefault(fi.qualname, e)
+                    if c is not None and c.owner is ai and e.fn is fi and c.name != "__init__":
+                        # direction of this update: the counter method's own `value op= <operand>` with the
+                        # operand bound to this call's argument
+                        for sgn in _update_signs(ctx, ai, c, e, csub):
+                            (inc_sites if sgn == "+" else dec_sites).setdefault(fi.qualname, e)
                 for s in p.evs("store"):
                     t = s.d["target"]
                     if s.fn is fi and t[0] == "attr" and t[2] in queue_fields and it2.type_of(t[1], p) == "C:" + tex.key and fi.name != "__init__":
@@ -189,7 +191,7 @@ def check(ctx, rep):
                 if s_.d.get("aug") and t[0] == "attr" and t[2] == csub:
                     nrmw += 1
                     rep.ob("R-COUNT", "%s: counter update under the counter's lock" % m.qualname, any(l[1] == ("attr", t[1], lf) for l in s_.locks for lf in clocks), "`%s %s= ...` is a read-modify-write that runs concurrently with the opposite update on another thread; without the counter's lock one of them is lost" % (fmt(t), s_.d["aug"]), where_of(m, s_.node), trace_of(p, s_.seq))
-    rep.require(nrmw >= 2, "in-flight counter: increment / decrement operations not found")
+    rep.require(nrmw >= 1, "in-flight counter: increment / decrement operations not found")
 
     # ---------------------------------------------------------------- counter ownership
     loop_fns = set(e.fn.qualname for p in li.paths for e in p.events)
@@ -316,6 +318,30 @@ def _callback_fn(ctx, cls, v):
         return ctx.prog.functions.get(v[1]), boundargs
     f = roles.closure_fn(v)
     return f, boundargs
+
+
+def _update_signs(ctx, ai, meth, call_ev, csub):
+    """directions ('+' / '-') in which a call of a counter method changes the counter"""
+    out = set()
+    b = roles.bound(call_ev, ctx.prog)
+    ps, it = ctx.paths(meth, ai, depth=0)
+    for p in ps:
+        for s_ in p.evs("store"):
+            t = s_.d["target"]
+            if not (s_.d.get("aug") in ("+", "-") and t[0] == "attr" and t[2] == csub):
+                continue
+            sgn = s_.d["aug"]
+            v = s_.d["value"]
+            opnd = v[3] if isinstance(v, tuple) and v[0] == "bin" and len(v) > 3 else None
+            if isinstance(opnd, tuple) and opnd[0] == "param":
+                a = b.get(opnd[1])
+                if isinstance(a, tuple) and a[0] == "const" and isinstance(a[1], (int, float)) and a[1] < 0:
+                    sgn = "-" if sgn == "+" else "+"
+                elif not (isinstance(a, tuple) and a[0] == "const"):
+                    out.update({"+", "-"})  # unknown amount: may go either way
+                    continue
+            out.add(sgn)
+    return out
 
 
 def _decrements(ctx, F, csub):
